@@ -903,6 +903,14 @@ fn model_cases(cs: &mut Cases, _a: &Args) {
         }));
         if let Ok(Some(obs)) = r { cs.case(&format!("ty {}", wire(t)), &obs); }
     }
+    // the public API (guarded since /repo 0aeb22c): Err or the stored number
+    for x in [f64::INFINITY, f64::NEG_INFINITY, f64::NAN, f64::MAX, f64::MIN, f64::MIN_POSITIVE, -0.0, 0.0, 1.5, -1e308, 5e-324] {
+        let r = catch_unwind(AssertUnwindSafe(|| {
+            let mut m = Model::new_empty("m", "en", "UTC", "en").ok()?;
+            Some(match m.update_cell_with_number(0, 1, 1, x) { Ok(()) => dump::cell_obs(&m, 0, 1, 1), Err(_) => "err".to_string() })
+        }));
+        if let Ok(Some(obs)) = r { cs.case(&format!("api {}", dump::bits(x)), &obs); }
+    }
     for form in 0..3 {
         for f in formulas {
             let r = catch_unwind(AssertUnwindSafe(|| {
@@ -958,7 +966,9 @@ fn main() {
     operators_section(&mut p);
     let typed_stored = typed_section(&mut p, a.thorough, a.seed);
     api_section(&mut p);
-    let xlsx_v = xlsx::xlsx_section(&mut p.or, &mut p.dist, &mut p.fails, &mut p.nontrivial, &tmp);
+    let mut imp_cases: Vec<(String, String)> = vec![];
+    let xlsx_v = xlsx::xlsx_section(&mut p.or, &mut p.dist, &mut p.fails, &mut p.nontrivial, &tmp, &mut imp_cases);
+    for (line, obs) in &imp_cases { cs.case(line, obs); }
     let t_inproc = t_start.elapsed().as_secs_f64();
 
     // ---- the function sweep, sharded over child processes --------------------------------------
